@@ -67,7 +67,14 @@ func c04Gen(r *rand.Rand, tier string) []spec.Case {
 		}
 		pr := pick(r, protos)
 		la := pick(r, []string{"cmd", "runner"})
-		add(spec.C04Case{Pattern: "cleanup", Proto: pr, Launch: la, Behaviours: bs})
+		var pk []bool
+		if i%2 == 1 {
+			// some of the managed clients had Kill called on them before they were started
+			for j := 0; j < n; j++ {
+				pk = append(pk, j == 0 || r.Intn(2) == 0)
+			}
+		}
+		add(spec.C04Case{Pattern: "cleanup", Proto: pr, Launch: la, Behaviours: bs, PreKill: pk})
 	}
 	return out
 }
@@ -90,6 +97,9 @@ func c04Judge(c spec.Case, evs []spec.Event, d *Death) CaseResult {
 	res.Class = fmt.Sprintf("%s|%s|%s|%s", p.Behaviour, p.Proto, p.Launch, p.Pattern)
 	if p.Pattern == "cleanup" {
 		res.Class = fmt.Sprintf("cleanup n=%d|%s|%s|%s", len(p.Behaviours), p.Proto, p.Launch, strings.Join(p.Behaviours, ","))
+		if len(p.PreKill) > 0 {
+			res.Class += fmt.Sprintf("|killed-before-start=%v", p.PreKill)
+		}
 	}
 	res.Sample = map[string]any{"case": p, "observed": o.Clients}
 	viol := func(key, msg string) {
@@ -114,7 +124,11 @@ func c04Judge(c spec.Case, evs []spec.Event, d *Death) CaseResult {
 			viol("kill-returned-early:"+p.Pattern, cl.EarlyReturn+" (every Kill call must only return once the plugin has exited)")
 		}
 		if cl.StateAfter != "gone" {
-			viol("process-survives:"+b, fmt.Sprintf("after Kill returned, pid %d is in state %q (must have exited and been reaped)", cl.Pid, cl.StateAfter))
+			pre := ""
+			if cl.PreKill {
+				pre = "; Kill had been called on this client once before its Start"
+			}
+			viol("process-survives:"+b, fmt.Sprintf("after Kill returned, pid %d is in state %q (must have exited and been reaped)%s", cl.Pid, cl.StateAfter, pre))
 		}
 		if !cl.Exited {
 			viol("exited-false:"+b, "after Kill returned, Exited() is false")
@@ -153,7 +167,7 @@ func init() {
 		ID: "C04", Level: "exploration", Race: true, TestName: "TestC04",
 		Gen: c04Gen, Batch: 16, Children: 6, PerCase: 6 * time.Second, Base: 240 * time.Second,
 		Judge: c04Judge, Finish: func(r *Run) { r.raceSummary("C04") },
-		Rule: "cases = plugin shutdown behaviour (exits at once / 200, 600, 1000 ms after the shutdown request / 1200 ms after it with a call that ignores cancellation in flight / never / alive with nothing listening at the announced address (Client() fails first) / busy handler / SIGSTOPped, state T awaited / already SIGKILLed / failed handshake) x protocol (net/rpc, gRPC, gRPC+mux) x launch (Cmd, custom runner around a real process, reattach) x call pattern (one Kill, three sequential, four concurrent, CleanupClients over 1/3/6 managed clients in mixed states, own host process each). Real vplugin subprocesses; the plugin writes a marker file after its cleanup, the monitor reads /proc/<pid>/stat, Exited() and the marker after Kill returns. Quick runs every (behaviour, protocol) cell once plus a seeded third of the remaining product; frozen net/rpc and mux (45 s keep-alive bound) only in thorough. Class = behaviour|protocol|launch|pattern",
+		Rule: "cases = plugin shutdown behaviour (exits at once / 200, 600, 1000 ms after the shutdown request / 1200 ms after it with a call that ignores cancellation in flight / never / alive with nothing listening at the announced address (Client() fails first) / busy handler / SIGSTOPped, state T awaited / already SIGKILLed / failed handshake) x protocol (net/rpc, gRPC, gRPC+mux) x launch (Cmd, custom runner around a real process, reattach) x call pattern (one Kill, three sequential, four concurrent, CleanupClients over 1/3/6 managed clients in mixed states, own host process each; in half of those rounds some clients had Kill called on them before their Start). Real vplugin subprocesses; the plugin writes a marker file after its cleanup, the monitor reads /proc/<pid>/stat, Exited() and the marker after Kill returns. Quick runs every (behaviour, protocol) cell once plus a seeded third of the remaining product; frozen net/rpc and mux (45 s keep-alive bound) only in thorough. Class = behaviour|protocol|launch|pattern",
 		Assumptions: []string{
 			"delays inside the grace period are 200/600/1000 ms; the ambiguous band around 2 s is never generated",
 			"the 'allowed to finish its cleanup' clause is judged for single, sequential and CleanupClients patterns; with concurrent Kill calls the statement only promises no panic and no hang",
